@@ -98,13 +98,16 @@ Partners(T, e) == IF e.corr < 0 THEN {}
 HostEvents(T) == { e \in T : Host(e) }
 DevEvents(T)  == { e \in T : Dev(e) }
 
-WellFormed(T) ==
+\* the part of well-formedness that survives trimming: what holds of the rows of a loaded frame
+WellFormedRows(T) ==
     /\ \A a, b \in HostEvents(T) : SameThread(a, b) =>
            Encloses(a, b) \/ Encloses(b, a) \/ DisjointSpans(a, b)
     /\ \A a, b \in T : (a.corr >= 0 /\ a.corr = b.corr /\ a # b) => Side(a) # Side(b)
     /\ \A e \in T : e.stream >= 0 => e.stream > 0
     /\ \A e \in HostEvents(T) : e.pid # 0 /\ e.tid # 0
-    /\ \E e \in T : e.id = 0 /\ Host(e) /\ e.corr = -1 /\ e.cat = "cpu_op"
+    /\ \A e \in T : e.id = 0 => (Host(e) /\ e.corr = -1 /\ e.cat = "cpu_op")
+\* a whole trace file: additionally its first entry is a host operator (id 0 is the "absent partner" sentinel)
+WellFormed(T) == WellFormedRows(T) /\ \E e \in T : e.id = 0
 
 \* device activities of one stream never overlap (a stream is a FIFO)
 StreamSerial(T) ==
